@@ -115,11 +115,17 @@ pub enum Probe {
     Host,
     /// Host followed by the original instruction of the site (neutral alternate)
     HostThenOrig,
+    /// global.get 0; i64.const 1; i64.add; global.set 0 : a copy of the clock tick of the generated programs (gprog);
+    /// the neutral block alternate of a `block; <tick>; end` construct
+    TickCopy,
 }
 
 pub const MARK_BASE: u32 = 0x5000_0000;
 
 pub fn probe_ops_for(inj: &Inj) -> Vec<O<'static>> {
+    if inj.probe == Probe::TickCopy {
+        return vec![O::GlobalGet { global_index: 0 }, O::I64Const { value: 1 }, O::I64Add, O::GlobalSet { global_index: 0 }];
+    }
     if inj.probe != Probe::Marker {
         return vec![O::I32Const { value: inj.uid as i32 }, O::Call { function_index: 0 }];
     }
@@ -171,6 +177,24 @@ pub enum PreEdit {
     DeleteImportFunc(u32),
     /// add_import_func with an existing function type
     AddImportFunc(u32),
+}
+
+pub fn pre_from_json(w: &serde_json::Value) -> Vec<PreEdit> {
+    w.as_array()
+        .map(|a| {
+            a.iter()
+                .filter_map(|e| match (e[0].as_str(), e[1].as_u64()) {
+                    (Some("del"), Some(x)) => Some(PreEdit::DeleteImportFunc(x as u32)),
+                    (Some("add"), Some(x)) => Some(PreEdit::AddImportFunc(x as u32)),
+                    _ => None,
+                })
+                .collect()
+        })
+        .unwrap_or_default()
+}
+
+pub fn pre_to_json(pre: &[PreEdit]) -> serde_json::Value {
+    serde_json::Value::Array(pre.iter().map(|e| match e { PreEdit::DeleteImportFunc(x) => serde_json::json!(["del", x]), PreEdit::AddImportFunc(x) => serde_json::json!(["add", x]) }).collect())
 }
 
 pub fn apply_module_multi(base: &[u8], plan: &[Inj], n: usize) -> Result<(Vec<Applied>, Vec<Result<Vec<u8>, PanicInfo>>, Vec<String>), String> {
@@ -1175,6 +1199,7 @@ pub fn plan_from_json(v: &serde_json::Value) -> Option<Vec<Inj>> {
             probe: match e["probe"].as_str() {
                 Some("Host") => Probe::Host,
                 Some("HostThenOrig") => Probe::HostThenOrig,
+                Some("TickCopy") => Probe::TickCopy,
                 _ => Probe::Marker,
             },
         });
@@ -1191,18 +1216,7 @@ impl Lower {
         };
         let plan = plan_from_json(&w["plan"])?;
         let mut rng = Rng::new(1, 1);
-        let pre: Vec<PreEdit> = w["pre"]
-            .as_array()
-            .map(|a| {
-                a.iter()
-                    .filter_map(|e| match (e[0].as_str(), e[1].as_u64()) {
-                        (Some("del"), Some(x)) => Some(PreEdit::DeleteImportFunc(x as u32)),
-                        (Some("add"), Some(x)) => Some(PreEdit::AddImportFunc(x as u32)),
-                        _ => None,
-                    })
-                    .collect()
-            })
-            .unwrap_or_default();
+        let pre = pre_from_json(&w["pre"]);
         Some(self.evaluate(&bytes, "witness", plan, w["via_component"].as_bool().unwrap_or(false), &pre, false, &mut rng))
     }
 
